@@ -66,6 +66,36 @@ def note_division(den):
     S.denoms.append(den)
 
 
+class AssumptionDecider(object):
+    """decides a symbolic condition when the given assumptions determine it (no forking); used for argument validation
+    such as `if variance <= 0: raise` with variance > 0 assumed"""
+
+    def __init__(self, assumptions):
+        self.assumes = assumptions          # live list: assumptions declared later count as well
+        self.extra = []
+        self.pc = []
+        self.queries = 0
+
+    def assume(self, e):
+        self.extra.append(e)
+
+    def decide(self, e):
+        res = []
+        for cand in (True, False):
+            s = z3.Solver()
+            s.set('timeout', 20000)
+            s.add(*self.assumes)
+            s.add(*self.extra)
+            s.add(e if cand else z3.Not(e))
+            res.append(str(s.check()))
+            self.queries += 1
+        if res[0] != 'unsat' and res[1] == 'unsat':
+            return True
+        if res[1] != 'unsat' and res[0] == 'unsat':
+            return False
+        raise UnexpectedFork('condition not determined by the assumptions: %s' % (str(e)[:200],))
+
+
 def decide(e):
     if S.explorer is None:
         raise UnexpectedFork('symbolic branch condition outside an explorer: %s' % (str(e)[:200],))
